@@ -213,10 +213,11 @@ theorem C17_primary_key_required (c : Ctx) (np : List Str) (io : Bool) (number :
   · intro items r h; cases h
 
 /-- **Statuses are numbered in declaration order after UNSPECIFIED**, with the prefix
-`SCREAMING_SNAKE(entity)_STATUS_`. (Hypothesis: the first status is not itself named
-`…UNSPECIFIED`.) -/
+`SCREAMING_SNAKE(entity)_STATUS_`. (Hypothesis: the first status is not itself the explicit
+zero `UNSPECIFIED`.) -/
 theorem C17_status_numbering (e : Entity)
-    (h : ∀ first rest, e.statuses = first :: rest → hasSuffix b!"UNSPECIFIED" first = false) :
+    (h : ∀ first rest, e.statuses = first :: rest →
+      isExplicitUnspecified (toScreamingSnake e.name ++ b!"_STATUS_") first = false) :
     let pfx := toScreamingSnake e.name ++ b!"_STATUS_"
     (convEnum (statusEnum e)).values =
       (pfx ++ b!"UNSPECIFIED", 0) ::
